@@ -343,7 +343,7 @@ func (e *Enc) eval(sx *Sx, env *evalEnv) tv {
 		return tv{Val{app("select", e.heapGet(env.heap, "$sb", "Int"), x.v.T), "Int"}, nil}
 	case "bigval":
 		x := e.eval(args[0], env)
-		return tv{Val{app("select", e.heapGet(env.heap, "$big", "Int"), x.v.T), "Int"}, nil}
+		return tv{Val{e.sel(e.heapGet(env.heap, "$big", "Int"), x.v.T), "Int"}, nil}
 	case "held":
 		// ghost lock state: (held mu-owner) -> 0 none, 1 read, 2 write
 		x := e.eval(args[0], env)
@@ -417,7 +417,7 @@ func (e *Enc) evalAtom(a string, env *evalEnv) tv {
 	if a == "nilslice" || a == "emptystr" {
 		return tv{Val{a, map[string]string{"nilslice": "Slice", "emptystr": "Str"}[a]}, nil}
 	}
-	if _, err := strconv.ParseInt(a, 0, 64); err == nil || isBigInt(a) {
+	if _, err := strconv.ParseInt(a, 0, 64); err == nil || isBigIntLit(a) {
 		if strings.HasPrefix(a, "0x") {
 			n, _ := strconv.ParseUint(a[2:], 16, 64)
 			return tv{Val{strconv.FormatUint(n, 10), "Int"}, nil}
@@ -459,7 +459,7 @@ func (e *Enc) evalAtom(a string, env *evalEnv) tv {
 	return tv{Val{"0", "Int"}, nil}
 }
 
-func isBigInt(a string) bool {
+func isBigIntLit(a string) bool {
 	if a == "" {
 		return false
 	}
@@ -641,4 +641,19 @@ func (e *Enc) specParamType(s string) (string, types.Type) {
 		return "Int", nil
 	}
 	return e.sortOf(t), t
+}
+
+// evalClause evaluates a contract clause; a clause that came from a pattern block and does not resolve for this function
+// (unknown name, wrong type) is dropped instead of making the function unsupported.
+func (e *Enc) evalClause(ct *Contract, sx *Sx, env *evalEnv) (string, bool) {
+	if ct == nil || !ct.Lenient[sx] {
+		return e.evalBool(sx, env), true
+	}
+	n := len(e.unsupported)
+	t := e.evalBool(sx, env)
+	if len(e.unsupported) > n {
+		e.unsupported = e.unsupported[:n]
+		return "true", false
+	}
+	return t, true
 }
